@@ -8,7 +8,10 @@
    Triggers are numbered in registration order (ids 1..nT).  A trigger's behaviour
    when called is its kind, a record [ret, acts]:
      ret   "plain" returns None, "raise" raises, "defer" returns a Deferred that the
-           environment fires later (callback or errback), "fired" returns a fired Deferred
+           environment fires later (callback or errback), "fired" returns a fired Deferred,
+           "chained" returns a Deferred that has been called but whose result is an unfired inner
+           Deferred (it has not fired until the environment fires the inner one), "paused" returns
+           a called but paused Deferred (it fires when the environment unpauses it)
      acts  what the trigger does, while it runs, to the event it belongs to, before it
            returns/raises: a sequence of
              [op |-> "add", ph, ret, more]  register a new trigger (kind [ret, more]) for phase ph
@@ -48,7 +51,8 @@ VARIABLES cfg,      \* [api |-> "raw" | "reactor"]   (which public API the execu
 vars == <<cfg, before, during, after, kind, phase, nT, state, pend, loose, ran, cur, removed, last>>
 
 Phases == {"before", "during", "after"}
-Rets   == {"plain", "raise", "defer", "fired"}
+Rets   == {"plain", "raise", "defer", "fired", "chained", "paused"}
+Unfired(r) == r \in {"defer", "chained", "paused"}   \* returns a Deferred that has not fired yet
 K(r)   == [ret |-> r, acts |-> <<>>]            \* a trigger that does nothing to the event
 
 InitWith(c) ==
@@ -61,7 +65,7 @@ InitWith(c) ==
 
 Range(s) == {s[i] : i \in 1..Len(s)}
 Without(s, x) == SelectSeq(s, LAMBDA y : y # x)
-Defers(s) == {s[i] : i \in {j \in 1..Len(s) : kind[s[j]].ret = "defer"}}
+Defers(s) == {s[i] : i \in {j \in 1..Len(s) : Unfired(kind[s[j]].ret)}}
 Registered == Range(before) \cup Range(during) \cup Range(after)
 
 PhaseNo(ph) == IF ph = "before" THEN 1 ELSE IF ph = "during" THEN 2 ELSE 3
@@ -131,7 +135,7 @@ RunList(st, which) ==        \* run the triggers of one phase until none is left
     ELSE LET t == Head(st[which])
              st1 == [st EXCEPT ![which] = Tail(@), !.ran = Append(@, t)]
              st2 == ApplyActs(st1, t, st.kind[t].acts, which)
-             st3 == IF st.kind[t].ret = "defer"
+             st3 == IF Unfired(st.kind[t].ret)
                     THEN (IF which = "before" THEN [st2 EXCEPT !.waits = @ \cup {t}] ELSE [st2 EXCEPT !.ign = @ \cup {t}])
                     ELSE st2
          IN RunList(st3, which)
@@ -216,7 +220,7 @@ PhaseOrder ==       \* within a firing: before, then during, then after; registr
 DeferredGate ==     \* no during/after trigger runs while a before-trigger's Deferred is unfired
     /\ (state = "Waiting") = (pend # {})
     /\ pend # {} => \A i \in 1..Len(cur) : phase[cur[i]] = "before"
-    /\ pend \subseteq {id \in Range(cur) : kind[id].ret = "defer" /\ phase[id] = "before"}
+    /\ pend \subseteq {id \in Range(cur) : Unfired(kind[id].ret) /\ phase[id] = "before"}
 
 Complete ==         \* a finished firing leaves behind only triggers registered, during it, for a phase already over
     /\ (last.e \in {"fire", "fired"} /\ last.fin) =>
